@@ -80,7 +80,61 @@ func genTriangulation(t *rapid.T, n int) *oracle.G {
 	return g
 }
 
+// genTheta: two hub vertices joined by k internally disjoint paths (a generalised theta graph) with chords between
+// inner vertices of cyclically neighbouring paths only: planar by construction (draw the paths side by side). Many
+// parallel fragments between one pair of attachment vertices, split again and again by late chords.
+func genTheta(t *rapid.T, maxN int) *oracle.G {
+	k := rapid.IntRange(3, 9).Draw(t, "paths")
+	g := oracle.New(2)
+	if rapid.Bool().Draw(t, "hubedge") {
+		g.Add(0, 1)
+	}
+	paths := make([][]int, k)
+	for i := range paths {
+		L := rapid.IntRange(1, 3).Draw(t, "inner")
+		prev := 0
+		for j := 0; j < L && g.N < maxN; j++ {
+			v := g.AddVertex([]int{prev})
+			paths[i] = append(paths[i], v)
+			prev = v
+		}
+		g.Add(prev, 1)
+	}
+	for i := 0; i < k; i++ {
+		a, b := paths[i], paths[(i+1)%k]
+		if i == k-1 && g.Has(0, 1) {
+			break // with the hub edge drawn between the last and the first path, those two are not neighbours
+		}
+		if len(a) == 0 || len(b) == 0 {
+			continue
+		}
+		// non-crossing chords between two neighbouring paths: a monotone matching
+		ia, ib := 0, 0
+		for ia < len(a) && ib < len(b) {
+			switch rapid.IntRange(0, 3).Draw(t, "chord") {
+			case 0:
+				g.Add(a[ia], b[ib])
+				if rapid.Bool().Draw(t, "stepboth") {
+					ia++
+				}
+				ib++
+			case 1:
+				ia++
+			case 2:
+				ib++
+			default:
+				g.Add(a[ia], b[ib])
+				ia++
+			}
+		}
+	}
+	return g
+}
+
 func genPlanarByConstruction(t *rapid.T, maxN int) *oracle.G {
+	if maxN >= 9 && rapid.IntRange(0, 5).Draw(t, "theta") == 0 {
+		return genTheta(t, maxN)
+	}
 	switch rapid.IntRange(0, 6).Draw(t, "pkind") {
 	case 0, 1: // triangulation, possibly thinned
 		g := genTriangulation(t, rapid.IntRange(3, max(3, maxN)).Draw(t, "n"))
